@@ -234,6 +234,13 @@ Theorem saves_happen :
 Proof. exact saves_happen_lemma. Qed.
 Print Assumptions saves_happen.
 
+(** ... and "a checkpoint at every iteration" (the reading planned in DESIGN.md) is refuted by
+    the faithful model: four iterations, always-true consumer, seek source, two checkpoints. *)
+Theorem saves_every_iteration_refuted :
+  exists s, ex_first = Finished _ _ _ s /\ s_asked _ _ _ s = 4 /\ length (s_offers _ _ _ s) = 2.
+Proof. exact saves_every_iteration_refuted_lemma. Qed.
+Print Assumptions saves_every_iteration_refuted.
+
 (** the reader invariant [saves_happen] asks for holds initially ([start_state], every
     [resume_state]: the reader is Idle) and is kept by every step *)
 Theorem reader_invariant_kept :
